@@ -129,6 +129,8 @@ def cfg_env(cfg):
         env["UFTRACE_THRESHOLD"] = cfg["threshold"]
     if cfg.get("max_stack") is not None:
         env["UFTRACE_MAX_STACK"] = cfg["max_stack"]
+    if cfg.get("min_size"):
+        env["UFTRACE_MIN_SIZE"] = cfg["min_size"]          # record -Z N
     return env
 
 
